@@ -1,0 +1,72 @@
+//go:build verif
+
+package pdf
+
+import (
+	"io"
+	"regexp"
+)
+
+// This file is only compiled with the build tag "verif".  It exposes the
+// unexported scanner to an external verification harness; it adds no
+// behaviour of its own.
+
+// VerifScanner wraps the unexported scanner.
+type VerifScanner struct {
+	s *scanner
+}
+
+// NewVerifScanner returns a scanner reading from r.  fileReader and getInt
+// may be nil (as for scanners created by ParseString and ParseName).
+func NewVerifScanner(r io.Reader, fileReader io.ReaderAt, getInt func(Object) (Integer, error)) *VerifScanner {
+	s := newScanner(r, getInt, nil)
+	s.fileReader = fileReader
+	return &VerifScanner{s: s}
+}
+
+func (v *VerifScanner) Pos() int64                          { return v.s.CurrentPos() }
+func (v *VerifScanner) ReadObject() (Native, error)         { return v.s.ReadObject() }
+func (v *VerifScanner) ReadInteger() (Integer, error)       { return v.s.ReadInteger() }
+func (v *VerifScanner) ReadNumber() (Native, error)         { return v.s.ReadNumber() }
+func (v *VerifScanner) ReadName() (Name, error)             { return v.s.ReadName() }
+func (v *VerifScanner) ReadDict() (Dict, error)             { return v.s.ReadDict() }
+func (v *VerifScanner) SkipWhiteSpace() error               { return v.s.SkipWhiteSpace() }
+func (v *VerifScanner) SkipString(pat string) error         { return v.s.SkipString(pat) }
+func (v *VerifScanner) SkipAfter(pat string) error          { return v.s.SkipAfter(pat) }
+func (v *VerifScanner) PeekN(n int) ([]byte, error)         { return v.s.PeekN(n) }
+func (v *VerifScanner) ReadByte() (byte, error)             { return v.s.ReadByte() }
+func (v *VerifScanner) Discard(n int64) error               { return v.s.Discard(n) }
+func (v *VerifScanner) ReadHeaderVersion() (Version, error) { return v.s.ReadHeaderVersion() }
+func (v *VerifScanner) ScanBytes(accept func(b byte) bool) error {
+	return v.s.ScanBytes(accept)
+}
+func (v *VerifScanner) Find(pat *regexp.Regexp) (int64, []string, error) {
+	return v.s.Find(pat)
+}
+func (v *VerifScanner) ReadIndirectObject() (Native, Reference, error) {
+	return v.s.ReadIndirectObject()
+}
+
+// ReadString reads a literal string starting at the opening parenthesis.
+func (v *VerifScanner) ReadString() (String, error) {
+	if err := v.s.SkipString("("); err != nil {
+		return nil, err
+	}
+	return v.s.ReadString()
+}
+
+// ReadHexString reads a hex string starting at the opening angle bracket.
+func (v *VerifScanner) ReadHexString() (String, error) {
+	if err := v.s.SkipString("<"); err != nil {
+		return nil, err
+	}
+	return v.s.ReadHexString()
+}
+
+// ReadArray reads an array starting at the opening bracket.
+func (v *VerifScanner) ReadArray() (Array, error) {
+	if err := v.s.SkipString("["); err != nil {
+		return nil, err
+	}
+	return v.s.ReadArray()
+}
